@@ -91,7 +91,10 @@ theorem nle_removeConsolidate (f : Forest) (prev next : Option Nat) :
 
 theorem nle_addConsolidate (f : Forest) (node : Nat) (prev next : Option Nat) :
     NLe f (f.addConsolidate node prev next).1 := by
-  unfold addConsolidate
+  rw [addConsolidate_eq_old]
+  generalize f.selfPrev node prev = prev
+  generalize f.selfNext node next = next
+  unfold addConsolidateOld
   split
   · exact NLe.refl f
   · cases f.textOf node with
